@@ -422,6 +422,116 @@ def run(F, chk):
                                   (fn["name"], rt, at, cls, t, cls.split("::")[-1]))
     chk.floor(R8, 8)
 
+    # ---------------------------------------------------------------- R14.9
+    R9 = chk.rule("R14.9", "a block that a NifFile function clones into the destination without handing it to CloneChildren (the bone "
+                           "nodes of CloneNamedNode) keeps no reference from the source model: every reference member its class "
+                           "reports through GetChildRefs / GetPtrs is cleared or reassigned on the clone before it is added — a block "
+                           "number copied from the source designates an unrelated (or no) block of the destination")
+    import c05 as _c05, paths as _paths9
+    E9 = _paths9.Summarizer(F, _c05.enum_primitive)
+
+    def _roots_at(e, vid):
+        hops = 0
+        while is_node(e) and hops < 12:
+            hops += 1
+            k = e["k"]
+            if k == "Ref":
+                return e.get("id") == vid
+            if k == "Member":
+                e = e.get("base")
+            elif k == "Cast":
+                e = e["e"]
+            elif k == "Unary" and e["op"] in ("*", "&"):
+                e = e["e"]
+            elif k == "OpCall" and e.get("op") in ("->", "*") and e.get("args"):
+                e = e["args"][0]
+            elif k == "Call" and e.get("short") in ("get",) and is_node(e.get("recv")):
+                e = e["recv"]
+            elif k == "Subscript":
+                e = e["base"]
+            else:
+                return False
+        return False
+
+    def _first_member(e, vid):
+        """name of the member of the clone (variable vid) that the access chain e goes through first"""
+        chain = []
+        hops = 0
+        while is_node(e) and hops < 12:
+            hops += 1
+            k = e["k"]
+            if k == "Member":
+                chain.append(e["name"])
+                e = e.get("base")
+            elif k == "Cast":
+                e = e["e"]
+            elif k == "Unary" and e["op"] in ("*", "&"):
+                e = e["e"]
+            elif k == "OpCall" and e.get("op") in ("->", "*") and e.get("args"):
+                e = e["args"][0]
+            elif k == "Call" and e.get("short") in ("get",) and is_node(e.get("recv")):
+                e = e["recv"]
+            elif k == "Subscript":
+                e = e["base"]
+            elif k == "Ref":
+                return chain[-1] if chain and e.get("id") == vid else None
+            else:
+                return None
+        return None
+
+    n9 = 0
+    for fn in sorted(F.fns.values(), key=lambda f: f["id"]):
+        if fn.get("cls") != NIF or fn.get("tmpl") == "pattern" or not fn.get("body"):
+            continue
+        for d in walk(fn["body"]):
+            if d["k"] != "Decl":
+                continue
+            for v in d.get("vars", []):
+                i0 = v.get("init")
+                while is_node(i0) and i0["k"] in ("Cast", "Construct") and (i0.get("e") is not None or len(i0.get("args", [])) == 1):
+                    i0 = i0["e"] if i0.get("e") is not None else i0["args"][0]
+                if not (is_node(i0) and i0["k"] == "Call" and i0.get("short") == "Clone" and is_node(i0.get("recv"))):
+                    continue
+                rt = (i0["recv"].get("ct") or i0["recv"].get("t") or "").replace("*", "").replace("const ", "").strip()
+                if rt not in F.recs or not F.derives_from(rt, "nifly::NiObject"):
+                    continue
+                vid = v["id"]
+                added = any(n["k"] == "Call" and n.get("short") == "AddBlock" and any(_roots_at(a, vid) or any(
+                    x["k"] == "Ref" and x.get("id") == vid for x in walk(a)) for a in n.get("args", [])) for n in walk(fn["body"]))
+                through_children = any(n["k"] == "Call" and n.get("short") == "CloneChildren" for n in walk(fn["body"]))
+                if not added or through_children:
+                    continue
+                refs = {}
+                for short in ("GetChildRefs", "GetPtrs"):
+                    m = F.method(rt, short)
+                    f_ = m[0] if m else None
+                    for ev in (E9.events(f_["id"]) if f_ else []):
+                        if ev.path and ev.path[0][0] == "this" and len(ev.path) > 1:
+                            refs.setdefault(ev.path[1], short)
+                handled = set()
+                for n in walk(fn["body"]):
+                    tgt = None
+                    if n["k"] == "Call" and is_node(n.get("recv")) and n.get("short") in ("Clear", "clear", "SetSize", "resize"):
+                        tgt = n["recv"]
+                    elif n["k"] == "Assign":
+                        tgt = n["l"]
+                    elif n["k"] == "OpCall" and n.get("op") == "=" and n.get("args"):
+                        tgt = n["args"][0]
+                    if tgt is not None:
+                        m_ = _first_member(tgt, vid)
+                        if m_:
+                            handled.add(m_)
+                for m_, via in sorted(refs.items()):
+                    n9 += 1
+                    ok = m_ in handled
+                    chk.instance(R9, ok=ok, sample={"fn": fn["name"], "clone_of": rt, "reference": m_, "reported_by": via})
+                    if not ok:
+                        chk.violation("R14.9", "C14/R14.9:%s:%s" % (fn["name"].split("(")[0], m_), where(fn, d),
+                                      "%s clones a %s into the destination without CloneChildren and does not clear `%s` (reported by %s): "
+                                      "the copied node keeps the source model's block numbers, which designate unrelated or no blocks "
+                                      "of the destination, also after save and reload" % (fn["name"], rt.split("::")[-1], m_, via))
+    chk.floor(R9, 4)
+
     # ---------------------------------------------------------------- R14.7
     chk.share(F, "c05", ["R5.1", "R5.2", "R5.5"], "R14.7",
               "CloneChildren finds what to clone, re-index and rebind only through GetChildRefs / GetStringRefs / GetPtrs: a "
@@ -468,6 +578,8 @@ def _defining_init(fn, a):
                 for v in n.get("vars", []):
                     if v["id"] == a["id"]:
                         return v.get("init")
+            elif n["k"] in ("If", "While", "Switch") and isinstance(n.get("var"), dict) and n["var"].get("id") == a["id"]:
+                return n["var"].get("init")  # `if (auto p = lookup)`
     return a
 
 
